@@ -199,7 +199,10 @@ BENIGN_WORDS = ("alpha beta gamma delta lorem ipsum dolor sit amet hello world c
                 "42 3rd 1 it's (laughs) MAN: rock&roll a<b x>y café ♪ naïve 100% [door] ... -- ¿qué? "
                 "\"quoted\" 'single' 😀 a&amp;b &lt; tab\there C:\\dir 5/6 #1 @home = "
                 "… œuvre €5 wait… ½ ™ ñ ¡hola! abcdefghijklmnopqrstuvwxyz ABCDEFGHIJKLMNOPQRSTUVWXYZ012345 "
-                "]]> <![CDATA[ <!-- İstanbul ß ٣ ² 007 - {} {1} \\N").split(" ")
+                "]]> <![CDATA[ <!-- İstanbul ß ٣ ² 007 - {} {1} \\N "
+                # unbroken tokens wider than one SCC row (32 columns): a writer that lays text out in rows has to split them
+                "https://captions.example.org/a/rather/long/path well-known-state-of-the-art-never-ending-story "
+                "Donaudampfschifffahrtsgesellschaftskapitän #averyveryverylonghashtagwithoutanybreaks").split(" ")
 # deliberately absent: other formats' markers ("-->", "WEBVTT", "<sami", "</tt>", "{1}{2}", the Scenarist header) as the
 # property says, whitespace-only text nodes (a blank line inside a cue is the cue separator of SRT and WebVTT: on the unchanged tree
 # SRT output with such a line is already unreadable - cue structure is C03's subject), "|" (MicroDVD's line separator: a cue made of nothing else is an empty cue - cue structure is C03's subject), and characters that str.splitlines() treats as line boundaries (VT, FF, FS-RS, NEL, LS, PS): how written
